@@ -5,6 +5,13 @@ from fractions import Fraction
 import numpy as np
 
 from harness import direct
+from harness.engine import REPO as _REPO
+
+
+def engine_repo():
+    return _REPO
+
+
 from harness.engine import VERIF, coq_bad_cases, coq_list
 
 INFO = {
@@ -174,7 +181,7 @@ def run(ctx):
                         if kparam is not None:
                             env.update({"mu": kparam[0][j], "v": kparam[1][j]})
                         try:
-                            tr = py2coq.pyeval(py2coq.to_ir(kern, "/repo"), env)
+                            tr = py2coq.pyeval(py2coq.to_ir(kern, engine_repo()), env)
                         except Exception as ex:
                             ctx.mismatch(f"translated kernel {kern} could not be evaluated: {ex}", inp, {"what": "translator"})
                             continue
